@@ -1640,7 +1640,8 @@ impl<'a, R: FileManager> FrontendCtx<'a, R> {
                 if let AddressedQualifiedType::WillBeUsedForEnumItem { enum_type, address } = ty {
                     let found = enum_type.members.iter().find(|it| match &it.id {
                         TsEnumMemberId::Ident(ident) => &ident.sym == member_name,
-                        TsEnumMemberId::Str(_) => unreachable!(),
+                        // enum E { "a-b" = 1 }: a member named by a string literal
+                        TsEnumMemberId::Str(s) => s.value.to_string_lossy() == member_name.as_str(),
                     });
                     return match found.and_then(|it| it.init.clone()) {
                         Some(init) => self.typeof_expr(&init, true, address.file.clone()),
@@ -2499,7 +2500,7 @@ impl<'a, R: FileManager> FrontendCtx<'a, R> {
                         }
                         let Some(enum_value) = from_enum.members.iter().find(|it| match &it.id {
                             TsEnumMemberId::Ident(i) => i.sym == *key,
-                            TsEnumMemberId::Str(_) => unreachable!(),
+                            TsEnumMemberId::Str(s) => s.value.to_string_lossy() == key.as_str(),
                         }) else {
                             return self.error(&anchor, DiagnosticInfoMessage::EnumMemberNotFound);
                         };
@@ -2698,7 +2699,7 @@ impl<'a, R: FileManager> FrontendCtx<'a, R> {
             AddressedQualifiedValue::Enum(ts_enum_decl, bff_file_name) => {
                 let Some(enum_value) = ts_enum_decl.members.iter().find(|it| match &it.id {
                     TsEnumMemberId::Ident(i) => i.sym == *member,
-                    TsEnumMemberId::Str(_) => unreachable!(),
+                    TsEnumMemberId::Str(s) => s.value.to_string_lossy() == *member,
                 }) else {
                     return self.error(anchor, DiagnosticInfoMessage::EnumMemberNotFound);
                 };
